@@ -88,8 +88,10 @@ PAYLOADS = [
     (({"a": {"b": [BIN1, [2, [3]]]}},), {"bin": BIN2}),
     (("",), {"": MARK}),
     ((MARK * 150,), {}),
+    # text values that look like another binary-in-text convention ("0x" + hex digits)
+    (("0x" + MARK, "0xabcdef"), {"0xkey": "0x", "h": ["0x00", MARK]}),
 ]
-QUICK_PAYLOADS = [0, 1, 2, 3, 4, 5]
+QUICK_PAYLOADS = [0, 1, 2, 3, 4, 5, 8]
 TAMPER_PAYLOAD = 4
 
 
